@@ -6,7 +6,7 @@ import string
 from typing import Optional
 
 from ..prog import AnalysisError, FuncInfo, call_name, short, stmt_head, unparse, walk_no_nested
-from ..util import atomic_guards, const_eval, guards_at
+from ..util import assignments_to, atomic_guards, const_eval, guards_at
 
 MOD = "sigma.conditions"
 REGEX_META = set(".^$+?{}[]\\|()")
@@ -198,6 +198,28 @@ def run(ctx) -> None:
         r.ok("C02.R2", pf.qual, unparse(pcs[0]), pf.loc)
     else:
         r.violation("C02.R2", pf.qual, unparse(pcs[0]), "the whole condition string must be consumed (parse_all=True) by the `condition` grammar: trailing garbage would be ignored", pf.loc)
+    # the grammar is the only producer of parse trees: every value the parse function hands out is (a cast / subscript / local
+    # alias of) the result of that one parse call — a second path (a shortcut for "simple" conditions) is a second grammar
+    def from_parse(e: ast.AST, depth: int = 0) -> bool:
+        if e is pcs[0]:
+            return True
+        if depth > 6:
+            return False
+        if isinstance(e, ast.Call) and call_name(e).split(".")[-1] == "cast" and len(e.args) == 2:
+            return from_parse(e.args[1], depth + 1)
+        if isinstance(e, ast.Subscript):
+            return from_parse(e.value, depth + 1)
+        if isinstance(e, ast.Name):
+            vals = [v for v in assignments_to(pf.node, e.id) if isinstance(v, ast.expr)]
+            return bool(vals) and all(from_parse(v, depth + 1) for v in vals) and len(vals) == len(assignments_to(pf.node, e.id))
+        return False
+    rets = [x for x in walk_no_nested(pf.node) if isinstance(x, ast.Return)]
+    other = [x for x in rets if x.value is None or not from_parse(x.value)]
+    if rets and not other:
+        r.ok("C02.R2", pf.qual, f"all {len(rets)} return(s) hand out the result of the grammar's parse call", pf.loc)
+    else:
+        bad_ = other[0] if other else pf.node
+        r.violation("C02.R2", pf.qual, short(bad_, 100), "the parse function hands out a tree that does not come from the `condition` grammar: whatever builds it decides keywords, names and nesting by rules of its own (word boundaries, precedence), next to the grammar", f"{pf.module.relpath}:{bad_.lineno}")
     r.floor("C02.R2", 7)
 
     r3_parse_actions(ctx, m)
